@@ -135,6 +135,25 @@ def oracle(ck, tier, deep):
             if max(abs(got[0] - cy), abs(got[1] - cx)) > tol:
                 ck.violation(dict(site="find_origin", method=meth, clause="symmetric-centre"), dict(shape=[rows, cols], centre=[cy, cx], image=im.tolist()),
                              f"{meth} returned {got} for content symmetric about {(cy, cx)} near the frame's edge")
+    # very broad symmetric content on a long frame: neighbouring values of the autoconvolution differ by less than 1e-5 of the maximum near
+    # the top, yet the maximum is unique and the centre is reported exactly
+    for it in range(4 if not deep else 20):
+        cols = int(rng.integers(1300, 1700))
+        c2 = int(rng.integers(cols - 40, cols + 40))               # centre on the half-pixel grid (index / 2)
+        x = np.arange(cols)
+        sig_ = float(rng.uniform(190, 260))
+        row = np.exp(-(x - c2 / 2) ** 2 / (2 * sig_ ** 2)) * (np.abs(x - c2 / 2) < 600)
+        im = np.vstack([row, 2 * row, row]) * float(rng.choice([1.0, 1e-6, 1e4]))
+        ck.count(("S.broad", c2 % 2, it % 2), suite="S.symmetric")
+        try:
+            got = quiet(find_origin, im if it % 2 == 0 else im.T.copy(), "convolution")
+        except Exception as e:
+            ck.violation(dict(site="find_origin", method="convolution", clause="exception"), dict(cols=cols, centre=c2 / 2, sigma=sig_), f"{type(e).__name__}: {e}")
+            continue
+        want = (1.0, c2 / 2) if it % 2 == 0 else (c2 / 2, 1.0)
+        if got[0] != want[0] or got[1] != want[1]:
+            ck.violation(dict(site="find_origin", method="convolution", clause="symmetric-centre"), dict(shape=[3, cols] if it % 2 == 0 else [cols, 3], centre=list(want), sigma=sig_),
+                         f"convolution returned {got} for broad content (sigma {sig_:.0f} px) symmetric about {want}")
     # Gaussian fit on Gaussian spots (to fit accuracy), translation on the same: ordinary spots, spots sharper than a pixel (their
     # true amplitude is higher than any sample), and broad spots cut off unevenly by the frame (still exactly Gaussian axis sums)
     for it in range(36 if not deep else 300):
